@@ -195,7 +195,7 @@ class FinishLearner:
     def finish(self): self.closed = True
 class FailingLearner:
     """raises at the k-th call of one of its methods"""
-    def __init__(self, where, k): self.where, self.k, self.c = where, k, {"predict": 0, "learn": 0}
+    def __init__(self, where, k): self.where, self.k, self.c, self.err = where, k, {"predict": 0, "learn": 0}, Exception("verif: the same exception object every time")
     @property
     def params(self):
         if self.where == "params": raise Exception("verif: params failure")
@@ -205,6 +205,7 @@ class FailingLearner:
         self.c["predict"] += 1
         CobaContext.learning_info["diag_predicts"] = self.c["predict"]      # diagnostics published before the failure must not reach another evaluation
         if self.where == "predict" and self.c["predict"] == self.k: raise Exception("verif: predict failure")
+        if self.where == "predict-same" and self.c["predict"] >= self.k: raise self.err      # e.g. a stored error that is raised again: the batched call and the per-row fallback see one object
         return actions[self.c["predict"] % len(actions)], 1.0
     def learn(self, context, action, reward, probability, **kw):
         from coba.context import CobaContext
